@@ -62,7 +62,7 @@ func lastByteOdd(p []byte) bool { return len(p) > 0 && p[len(p)-1]%5 == 0 }
 
 // ---------------------------------------------------------------- corruption
 
-var corruptKinds = []string{"sigflip", "sigother", "nosig", "nokey", "otherkey", "payload", "clock", "nextdrop", "foreignid", "logid-signed"}
+var corruptKinds = []string{"sigflip", "sigother", "nosig", "nokey", "otherkey", "payload", "clock", "nextdrop", "foreignid", "logid-signed", "noidentity"}
 
 // corrupt returns a tampered copy of e with the original hash kept. invalid=false
 // for kinds whose copy is not a candidate at all (foreign id).
@@ -98,6 +98,11 @@ func corrupt(kind string, e iface.IPFSLogEntry, other iface.IPFSLogEntry, rng *r
 		}
 	case "foreignid":
 		c.LogID = c.LogID + "-x"
+		return c, false
+	case "noidentity":
+		// the identity record is not part of the signed content: the entry stays verifiable, and whether it may
+		// be merged is the access controller's decision like for any other entry
+		c.Identity = nil
 		return c, false
 	case "logid-signed":
 		// keep the log id field but the signature was made for another id: simulate by
@@ -231,6 +236,38 @@ func c06Case(run *evid.Run, i int, j *Journal) {
 			run.Violate("C06/appended-not-mergeable", det("codec", h.Codec), wit(fmt.Sprintf("fresh<-r%d", r)), "fresh replica got %d of %d entries", fresh.Len(), l.Len())
 		}
 	}
+	// (e') the same for entries READ BACK from storage (decoded objects, not the ones Append returned): a replica
+	// rebuilt by a loader hands out entries that verify, and a fresh permissive replica can merge it
+	if h.Codec != "pb" { // the legacy codec cannot read back what it writes (DESIGN 8.5)
+		for r, l := range x.Logs {
+			if l.Len() == 0 || (i+r)%3 != 0 {
+				continue
+			}
+			loader := hx.Loaders[rng.Intn(len(hx.Loaders))]
+			j.Log(map[string]any{"case": i, "codec": h.Codec, "phase": "verify-read-back", "loader": loader})
+			re, err := x.W.Reload(l, loader, x.Writer[r], nil)
+			if err != nil {
+				run.Violate("C06/restore-error", det("codec", h.Codec, "loader", loader), wit("read back"), "restoring a log through the %s loader failed: %v", loader, err)
+				continue
+			}
+			if re == nil {
+				continue
+			}
+			run.Count("logs_read_back_and_verified", 1)
+			for _, e := range re.Values().Slice() {
+				if err := e.Verify(provider, x.W.IOv()); err != nil {
+					run.Violate("C06/read-back-not-verifiable", det("codec", h.Codec, "loader", loader, "refs", len(e.GetRefs()) > 0), wit(fmt.Sprintf("r%d read back through %s", r, loader)), "an entry produced by Append and read back from storage (%d predecessors, %d references) does not verify under codec %s: %v", len(e.GetNext()), len(e.GetRefs()), h.Codec, err)
+					break
+				}
+			}
+			fresh := x.W.NewLog(0)
+			if _, err := fresh.Join(re, -1); err != nil {
+				run.Violate("C06/read-back-not-mergeable", det("codec", h.Codec, "loader", loader), wit(fmt.Sprintf("fresh<-r%d read back through %s", r, loader)), "a log of honestly appended entries read back from storage cannot be merged into a fresh permissive replica under codec %s: %v", h.Codec, err)
+			} else if fresh.Len() != re.Len() {
+				run.Violate("C06/read-back-not-mergeable", det("codec", h.Codec, "loader", loader), wit(fmt.Sprintf("fresh<-r%d read back", r)), "fresh replica got %d of %d entries", fresh.Len(), re.Len())
+			}
+		}
+	}
 	if h.Codec != "cbor" {
 		run.NonTrivial("codec/" + h.Codec + "/" + h.Shape)
 	}
@@ -340,6 +377,17 @@ func c06Case(run *evid.Run, i int, j *Journal) {
 				pc = "root"
 			}
 			posClass = append(posClass, kind+"@"+pc)
+		}
+		if rng.Intn(8) == 0 {
+			// every entry of the offered log comes without its identity record
+			for k, e := range entries {
+				if _, done := corrupted[e.GetHash().String()]; !done {
+					ce, _ := corrupt("noidentity", e, e, rng)
+					entries[k] = ce
+					corrupted[e.GetHash().String()] = "noidentity"
+				}
+			}
+			posClass = append(posClass, "noidentity@all")
 		}
 		var heads []iface.IPFSLogEntry
 		srcMap := map[string]iface.IPFSLogEntry{}
